@@ -322,8 +322,8 @@ func run(c *mon.Case) {
 
 func main() {
 	mon.Main(mon.Spec{
-		Prop: "C32",
-		Rule: "case = memory (Sparse, Bytes or Overlay(Bytes,Sparse)) with constant content written as 1..3 clusters of overlapping stores of widths 1..16 (bytes written as parts of wider values, partially overwritten) at bases {0,0x1000,0x1ffe8,0xfff0,2^40,2^63-8,0xffffffff80000000,2^64-0x1000}; the whole view is rendered and parsed back from stdout, then 50 'address' commands (decimal/hex/octal/binary spellings) are executed through the real command loop, two thirds of them after a real 'goto' to another row (ellipsis rows, first and last row preferred); non-trivial = memory whose rows contain an absent cell and at least one ellipsis between rows; distinct by store history",
+		Prop:        "C32",
+		Rule:        "case = memory (Sparse, Bytes or Overlay(Bytes,Sparse)) with constant content written as 1..3 clusters of overlapping stores of widths 1..16 (bytes written as parts of wider values, partially overwritten) at bases {0,0x1000,0x1ffe8,0xfff0,2^40,2^63-8,0xffffffff80000000,2^64-0x1000}; the whole view is rendered and parsed back from stdout, then 50 'address' commands (decimal/hex/octal/binary spellings) are executed through the real command loop, two thirds of them after a real 'goto' to another row (ellipsis rows, first and last row preferred); non-trivial = memory whose rows contain an absent cell and at least one ellipsis between rows; distinct by store history",
 		Explanation: "oracle: shadow byte map -> expected rows: one per 16-byte aligned window touching stored bytes, in address order, each cell the hex value or the absent mark, an ellipsis row between non-consecutive windows (leading/trailing ellipsis rows tolerated); 'address a' must select the row of a stored byte, must fail and keep the cursor when a lies in no shown window, and may do either for an absent byte inside a shown window",
 		Assumptions: []string{"row syntax parsed back with a regular expression transcribed from the rendered layout", "memory view reached through verif hooks"},
 		Cases: func(t string) int {
